@@ -20,7 +20,7 @@ RULE = ("call sets whose per-record number of complete samples per population is
         "sufficient), m_j + 2, all, none) x random maps (1-3 populations) x projection targets (for small maps EVERY admissible m in "
         "0..2n_j per axis is visited across the run; otherwise boundary-biased); L1 compares every record's contribution vector cell by "
         "cell (relative 1e-9), C compares printed output with |printed - exact| <= 0.5*10^-p + 1e-9*R for precision p in 0..12 and checks "
-        "the number of decimals; cohorts with 100-600 samples (quick: 100-260) exercise t > 170. Non-trivial: >=1 record strictly projected "
+        "the number of decimals; cohorts with 100-600 samples (quick: 100-260) exercise t > 170, and 514-520-sample cohorts projected to about half sit where C(t, m) crosses the f64 range. Non-trivial: >=1 record strictly projected "
         "(some t_j > m_j) with non-zero ALT count and >=1 insufficient or exactly-sufficient record; distinct = digest(codes, map, target).")
 ASSUMPTIONS = ["exact reference: Fractions / math.comb", "floating-point allowance 1e-9 relative (measured error of the real pmf ~3e-12)"]
 FLOORS = {"quick": {"evaluations": 3000, "distinct_nontrivial": 800, "counts": {"L1_records": 20000, "C_runs": 250, "exactly_sufficient_records": 500, "insufficient_records": 500}},
@@ -80,12 +80,17 @@ def steered_callset(rng, samples, smap, project, nrec, multi_ok=True):
 
 def gen(seed, labels, cohort_max=None):
     rng = rng_for(seed, "c02", *labels)
-    if cohort_max:
+    if cohort_max == "overflow-band":
+        # binomial coefficients cross the f64 range around 1030 chromosomes: C(1030, 515) is just above f64::MAX
+        ns = rng.choice([514, 515, 516, 520])
+        npops = 1
+        nrec = 3
+    elif cohort_max:
         ns = rng.randint(100, cohort_max)
         npops = rng.choice([1, 1, 2])
         nrec = rng.randint(6, 14)
     else:
-        ns = rng.choice([1, 2, 3, 4, 5, 6, 8, 12, 20])
+        ns = rng.choice([1, 2, 3, 4, 5, 6, 8, 12, 20, 31, 32, 33, 34, 40, 50, 64])
         npops = rng.randint(1, min(3, ns))
         nrec = rng.choice([1, 2, 5, 10, 30, 80])
     samples = G.sample_names(rng, ns)
@@ -103,7 +108,9 @@ def gen(seed, labels, cohort_max=None):
             t //= (2 * z + 1)
     else:
         project = G.random_project(rng, smap)
-        if cohort_max:
+        if cohort_max == "overflow-band":
+            project = [rng.choice([z, z - 1, z + 1, 515, 514, 516])for z in sizes]
+        elif cohort_max:
             project = [rng.choice([2 * z, 2 * z - 1, 171, 172, 170, rng.randint(1, 2 * z), z, 2 * (z // 2)]) for z in sizes]
             project = [min(2 * z, max(0, m)) for m, z in zip(project, sizes)]
     cs = steered_callset(rng, samples, smap, project, nrec)
@@ -254,6 +261,10 @@ def shard(S, p):
         return
     check_L1(S, [gen(seed, [p["name"], "L1", i]) for i in range(p["l1"])])
     check_C(S, [gen(seed, [p["name"], "C", i]) for i in range(p["c"])])
+    if p["i"] % 8 == 3:
+        ob = [gen(seed, [p["name"], "overflow-band", 0], cohort_max="overflow-band")]
+        check_L1(S, ob)
+        S.count("overflow_band_cohorts", len(ob))
     if p["cohort"]:
         co = [gen(seed, [p["name"], "cohort", i], cohort_max=p["cohort_max"]) for i in range(2)]
         for c in co:
